@@ -16,6 +16,8 @@
 #include "random.h"
 
 #include <stdexcept>
+#include <algorithm>
+#include <limits>
 
 template <typename T>
 class Stokes : public Vector<4,T>
@@ -89,13 +91,17 @@ void random_value (Stokes<T>& val, U scale, float max_polarization = 1.0)
 
   T modp = val.abs_vect();
 
-  scale *= fraction_polarized / modp;
+  // the factor is applied in the precision of the vector, not of the scale
+  T factor = scale;
+  factor *= fraction_polarized / modp;
 
   for (i=1; i<4; i++)
-    val[i] *= scale;
+    val[i] *= factor;
 
   // tolerate rounding error, which is proportional to the squared intensity
-  if (val.invariant() < -1e-10 * val[0] * val[0])
+  // and to the precision of the vector
+  T tolerance = std::max (T(1e-10), 64 * std::numeric_limits<T>::epsilon());
+  if (val.invariant() < -tolerance * val[0] * val[0])
     throw std::runtime_error ("random_value (Stokes) invariant less than zero");
 }
 
